@@ -237,7 +237,8 @@ def solve_main(objfun, x0, argsf, xl, xu, projections, npt, rhobeg, rhoend, maxf
     number_of_samples = max(nsamples(control.delta, control.rho, 0, nruns_so_far), 1)
     num_directions = min(params("growing.ndirs_initial") + params("restarts.hard.increase_ndirs_initial_amt") * nruns_so_far,
                          npt - 1)  # cap at npt
-    if params("init.random_initial_directions"):
+    # Coordinate directions give at most (n+1)(n+2)/2 points; npt can grow beyond this at hard restarts (restarts.increase_npt)
+    if params("init.random_initial_directions") or npt > (len(x0) + 1) * (len(x0) + 2) // 2:
         if do_logging:
             module_logger.info("Initialising (random directions)")
         exit_info = control.initialise_random_directions(number_of_samples, num_directions, params)
